@@ -38,38 +38,53 @@ SCORES = [0, 1, 1, 2, 2, 3, "1/2", 5]
 
 def gen_election(rng, max_proj=7, max_vot=6):
     """costs, budget, ballot kind, ballots (JSON-able)"""
-    m = rng.choice([1, 2, 3, 3, 4, 4, 5, 5, 6, 7])
+    m = rng.choice([1, 2, 3, 3, 4, 4, 4, 5, 5, 5, 6, 6, 7])
     m = min(m, max_proj)
-    n = min(rng.choice([1, 2, 3, 3, 4, 4, 5, 5, 6, 6]), max_vot)
+    n = min(rng.choice([1, 2, 3, 3, 4, 4, 5, 5, 5, 6, 6, 6]), max_vot)
     pool = rng.choice(COST_POOLS)
     costs = [pb.F(rng.choice(pool)) for _ in range(m)]
     if rng.random() < 0.12:
         costs[rng.randrange(m)] = Fraction(0)
     tot = sum(costs, Fraction(0))
-    mode = rng.randrange(8)
-    if mode == 0 or tot == 0:
+    mode = rng.randrange(12)
+    if tot == 0 or mode == 0:
         B = Fraction(rng.choice([1, 2, 3, 4]))
-    elif mode == 1:
+    elif mode in (1, 2):
         B = tot
-    elif mode == 2:
-        B = tot * Fraction(rng.randrange(2, 8), 8)
-    elif mode == 3:
-        B = max(costs)
-    elif mode == 4:
-        k = rng.randrange(1, m + 1)
-        B = sum(rng.sample(costs, k), Fraction(0)) or Fraction(1)
-    elif mode == 5:
-        B = Fraction(n) * rng.choice([1, Fraction(1, 2), 2])
+    elif mode in (3, 4, 5):
+        B = tot * Fraction(rng.randrange(3, 8), 8)
     elif mode == 6:
+        B = max(costs)
+    elif mode == 7:
+        k = rng.randrange((m + 1) // 2, m + 1)
+        B = sum(rng.sample(costs, k), Fraction(0)) or Fraction(1)
+    elif mode == 8:
+        B = Fraction(n) * rng.choice([1, Fraction(3, 2), 2])
+    elif mode == 9:
         B = tot / 2 + Fraction(1, 3)
+    elif mode == 10:
+        B = tot * Fraction(3, 4)
     else:
         B = tot + 1
     if B <= 0:
         B = Fraction(1)
+    dense = rng.random() < 0.68
+    if dense:       # many rounds, overlapping supporters: poor and rich supporters in one round
+        m = min(max_proj, rng.choice([4, 5, 5, 6, 6, 7]))
+        n = min(max_vot, rng.choice([4, 5, 5, 6, 6]))
+        pool = rng.choice([[1, 2, 3, 4, 5], [2, 3, 5, 7], [1, 1, 2, 2, 3], ["1/2", "3/2", 1, 2, "5/2"], [2, 2, 3, 3]])
+        costs = [pb.F(rng.choice(pool)) for _ in range(m)]
+        tot = sum(costs, Fraction(0))
+        B = tot * rng.choice([Fraction(3, 4), Fraction(7, 8), Fraction(1), Fraction(5, 8)])
+        if rng.random() < 0.2:
+            costs[rng.randrange(m)] = Fraction(0)
     if rng.random() < 0.10:   # one project dearer than the whole budget
         costs[rng.randrange(m)] = B + rng.choice([1, Fraction(1, 2)])
     kind = rng.choice(["approval", "approval", "approval", "cardinal", "cumulative", "ordinal"])
-    style = rng.choice(["random", "party", "nested", "dup", "random", "party"])
+    style = rng.choice(["random", "party", "nested", "dup", "random", "window", "window", "nested"])
+    if dense:
+        style = "dense"
+    dens = rng.choice([0.5, 0.6, 0.7])
     ballots = []
     parties = [sorted(rng.sample(range(m), rng.randrange(1, m + 1))) for _ in range(rng.choice([2, 2, 3]))]
     chain = list(range(m))
@@ -80,6 +95,12 @@ def gen_election(rng, max_proj=7, max_vot=6):
             return list(rng.choice(parties))
         if style == "nested":
             return sorted(chain[:rng.randrange(0, m + 1)])
+        if style == "dense":
+            return [j for j in range(m) if rng.random() < dens]
+        if style == "window":
+            w = rng.randrange(1, min(m, 4) + 1)
+            st = rng.randrange(0, m)
+            return sorted({chain[(st + k) % m] for k in range(w)})
         r = rng.random()
         if r < 0.08:
             return []
